@@ -320,6 +320,9 @@ func report(o *options, p *Prog, db *ContractDB, units []*Unit, known []KnownFin
 				byBackend[ob.Solver]++
 				r.Status = "discharged"
 				discharged = append(discharged, ob.Name)
+			case ob.Result == "error":
+				r.Status = "SOLVER-ERROR"
+				broken = append(broken, fmt.Sprintf("%s: solver error: %s", ob.Name, trunc(ob.Output, 300)))
 			case ob.Result == "disagree":
 				r.Status = "SOLVERS-DISAGREE"
 				broken = append(broken, fmt.Sprintf("%s: %s", ob.Name, ob.Output))
